@@ -5,9 +5,10 @@
       (1) for every state s reachable by operations, clean restarts and crashes, every operation
           o and every k: xstep s XRestart and xstep s (XCrash k o) are Ok.
           REFUTED: [C10_restart_can_fail_refuted], [C10_clean_restart_can_fail_refuted].
-          PARTIAL: [C10_startup_never_fails_partial] (guards: [op_nonempty] - exactly what the
-          witnesses violate -, [ph_adm] / keys of a replayed header's next set, crash points
-          other than the one between the committed-header write and the position write).
+          PARTIAL: [C10_startup_never_fails_any_cut_partial] (every crash point of every operation;
+          guards: [op_nonempty] - exactly what the witnesses violate -, a key in the next validator
+          set of an accepted / replayed header; the HISTORY leading to s may crash anywhere except
+          between the committed-header write and the position write of a commit, [clean_cut]).
       (2) nothing committed is lost, the stored position does not regress, the voting height is
           at most one above what the uninterrupted operation reaches:
           [C10_no_regression_partial], [C10_crash_height_bound_partial] (same guards).
@@ -83,6 +84,15 @@ Theorem C10_startup_never_fails_partial : forall ih ivs s,
      exists s', xstep s (XCrash k o) = Ok (s', r)).
 Proof. exact startup_never_fails_partial. Qed.
 Print Assumptions C10_startup_never_fails_partial.
+
+(** (1) partial, EVERY crash point (also the one between the committed-header write and the
+    position write of a commit): the restart after the crash comes up *)
+Theorem C10_startup_never_fails_any_cut_partial : forall ih ivs s,
+  1 <= ih -> vwf ivs -> reachable_g ih ivs s ->
+  forall o k s1 r, step s o = Ok (s1, r) -> wf_op o r ->
+     exists s', xstep s (XCrash k o) = Ok (s', r).
+Proof. exact startup_never_fails_any_cut. Qed.
+Print Assumptions C10_startup_never_fails_any_cut_partial.
 
 (** every clean write prefix of every admissible operation leaves stores satisfying [SI]
     that lie between the stores before and the stores after the uninterrupted operation *)
